@@ -1538,8 +1538,11 @@ func (l *lexer) linebreak() bool {
 			l.comment()
 			l.mark(0)
 			// the bodies of pending here-documents begin here
-			if l.heredoc.exists() && !l.readHeredocs() {
-				return false
+			if l.heredoc.exists() {
+				if !l.readHeredocs() {
+					return false
+				}
+				l.mark(0)
 			}
 		case '#':
 			// comment
